@@ -1,17 +1,32 @@
 /-
 C02 — client and server sessions interoperate: media arrives byte-exact and tagged.
-STATUS: PARTIAL.  The end-to-end statement (for every script, configuration and schedule of the two
-byte streams) is NOT a theorem.  Proved here are the per-session facts it is composed of, for every
-state: each side hands the serializer exactly the application's bytes and timestamp on the active
-stream; each side raises exactly the decoded message's bytes and timestamp, tagged as required; both
-sides honour every decoded chunk-size change; the server strips exactly one trailing '/' of the
-application name.  The remaining links are C01 (chunk transport; its round-trip clause is itself still
-open), C13/C04 (bodies) and C09/C10 (workflow), and the composition over schedules is argued, not
-mechanised.  The property is decided on the implementation by the `interop` family: real
+STATUS.  Proved, for all inputs, the two media paths end to end and the transport they ride on:
+
+* `C02_transport`: a serializer and the peer's deserializer that are in step (`Link.Linked`: the peer has
+  consumed everything sent so far; true of two fresh sessions) stay in step over ANY well-formed
+  emission of the sending session (everything a session does: C18), with ANY subset of the droppable
+  packets omitted: the peer decodes exactly the messages of the delivered packets, no error, nothing left.
+* `C02_publish_media`: client publishing on stream `sid`, server with that stream publishing under `key`
+  in application `app`, in step.  ANY list of audio/video items (any bytes, any 32-bit timestamps, either
+  flag), ANY droppable subset omitted: the server raises for exactly the delivered items, in order, one
+  event each with the item's bytes and timestamp, tagged `app` and `key` — exactly once, nothing else.
+* `C02_play_media`: the same from a sending server to a client whose playback is requested or running.
+* under EVERY partition of the delivered bytes into input calls: `C15_server_session`, `C15_client_session`
+  (acknowledgement packets aside: they are a function of the call sizes, C17, and raise only
+  acknowledgement events at the peer).
+* the per-session links: exact hand-over to the serializer, exact raising, chunk-size changes honoured,
+  application name minus one trailing '/'.
+
+NOT a theorem: that the connect → createStream → publish/play workflow, run between the two models
+under an arbitrary schedule, reaches the states the media theorems start from (it needs the symbolic
+AMF0 round trip of each command object and a schedule argument).  Each session's half of that workflow
+is C09 / C10; the composition is decided on the implementation by the `interop` family: real
 ClientSession ↔ real ServerSession under seeded random fragmentation, interleaving and configurations.
 -/
 import Rml.Props.C09
 import Rml.Props.C10
+import Rml.Lemmas.Interop
+import Rml.Props.C15
 namespace Rml.C02
 open Rml Rml.Chunk Rml.Amf0 Rml.Msgs Rml.Sess
 
@@ -82,5 +97,51 @@ theorem C02_app_name_normalised (s s' : Srv.State) (tid : Nat) (props : List (By
   unfold Srv.cmdConnect at h
   simp only [ha, Except.ok.injEq, Prod.mk.injEq] at h
   exact h.2.symm
+
+/-- **transport.**  In step before, any well-formed emission, any droppable subset omitted: decoded
+    exactly, in step after. -/
+theorem C02_transport (ser ser' : Ser.State) (des : Des.State) (xs : List (Ser.Packet × Msg))
+    (hl : Link.Linked ser des) (he : Emit.Emits ser ser' xs) (mask : List Bool) :
+    ∃ c', Des.feed des (SerHist.wire (SerHist.keepSel mask xs)) =
+        { core := c', buf := [], msgs := SerHist.msgs (SerHist.keepSel mask xs), err := none } ∧
+      Link.Linked ser' { core := c', buf := [] } :=
+  Link.linked_emits hl he mask
+
+/-- two fresh sessions are in step, in both directions (the client sends nothing at construction) -/
+theorem C02_fresh_in_step (cfg : Cli.Config) : Link.Linked ({ cfg := cfg } : Cli.State).ser ({} : Srv.State).des :=
+  Link.linked_init
+
+/-- **publishing path** (statement and proof: Lemmas/Interop.lean) -/
+theorem C02_publish_media (c c' : Cli.State) (v : Srv.State) (items : List Interop.Item) (ps : List Ser.Packet)
+    (sid now : Nat) (app key : Bytes) (mode : Srv.PublishMode) (mask : List Bool)
+    (hs : c.st = .publishing) (ha : c.activeStream = some sid) (hsid : sid < 4294967296)
+    (hts : ∀ it ∈ items, it.ts < 4294967296)
+    (hvc : v.connected = true) (hva : v.app = some app) (hvs : mapGet sid v.streams = some (.publishing key mode))
+    (hlink : Link.Linked c.ser v.des) (hpub : Interop.publishAll c items = some (c', ps)) :
+    let kept := SerHist.keepSel mask (ps.zip (items.map (Interop.Item.msg sid)))
+    ∃ core', SrvPart.drain v now (SerHist.wire kept) =
+        ({ v with des := { core := core', buf := [] } }, .ok ((SerHist.msgs kept).flatMap (Interop.evOf app key))) ∧
+      Link.Linked c'.ser { core := core', buf := [] } :=
+  Interop.publish_media c c' v items ps sid now app key mode mask hs ha hsid hts hvc hva hvs hlink hpub
+
+/-- **playing path** -/
+theorem C02_play_media (v v' : Srv.State) (c : Cli.State) (items : List Interop.Item) (ps : List Ser.Packet)
+    (sid now : Nat) (mask : List Bool)
+    (hs : c.st = .playing ∨ c.st = .playRequested) (ha : c.activeStream = some sid) (hsid : sid < 4294967296)
+    (hts : ∀ it ∈ items, it.ts < 4294967296)
+    (hlink : Link.Linked v.ser c.des) (hsend : Interop.sendAll v sid items = some (v', ps)) :
+    let kept := SerHist.keepSel mask (ps.zip (items.map (Interop.Item.msg sid)))
+    ∃ core', CliPart.drain c now (SerHist.wire kept) =
+        ({ c with des := { core := core', buf := [] } }, .ok ((SerHist.msgs kept).flatMap Interop.evOfC)) ∧
+      Link.Linked v'.ser { core := core', buf := [] } :=
+  Interop.play_media v v' c items ps sid now mask hs ha hsid hts hlink hsend
+
+-- non-vacuity of the publishing path: a state pair that meets every hypothesis, and two items
+example :
+    let c : Cli.State := { cfg := { flashVersion := [], bufferLengthMs := 0, windowAckSize := 0, chunkSize := 128, tcUrl := none },
+                           st := .publishing, activeStream := some 1 }
+    (Interop.publishAll c [{ video := true, data := [1, 2], ts := 5, drop := false },
+                           { video := false, data := [3], ts := 9, drop := true }]).isSome = true := by
+  decide +kernel
 
 end Rml.C02
